@@ -12,6 +12,14 @@ trap 'git -C /repo worktree remove --force "$d" >/dev/null 2>&1; rm -rf "$d"' EX
 m=$d/code/go/0chain.net
 echo 'replace github.com/linxGnu/grocksdb => /tmp/seedkit/grocksdb' >> $m/go.mod
 place_demo() {
+  if [ -f "$seed/demo/run_demo.sh" ]; then
+    # the author's own runner, re-pointed at this scratch worktree
+    mkdir -p "$d/SEED"; cp -r "$seed/demo" "$d/SEED/demo"
+    orig=$(grep -o '/tmp/seed/[A-Za-z0-9_]*' "$seed/demo/run_demo.sh" | head -1)
+    sed -i "s|$orig|$d|g" "$d/SEED/demo/run_demo.sh"
+    DEMO="sh $d/SEED/demo/run_demo.sh"
+    return 0
+  fi
   if ls "$seed"/demo/*_test.go >/dev/null 2>&1; then
     # test-file demos: README must say where; convention: meta.json "demo_pkg"
     pkg=$(python3 -c "import json;print(json.load(open('$seed/meta.json')).get('demo_pkg',''))")
